@@ -84,9 +84,15 @@ fn build(case: &Case) -> (BuiltContainer, Vec<Tex>, Vec<TplImage>) {
             .map(|t| {
                 let fmt = FORMATS[t.fmt as usize % 9];
                 let (w, h) = (8usize << (t.w % 3), 8usize << (t.h % 3));
-                Tex { name: t.name.clone(), w, h, fmt, payload: payload_for(fmt, w, h, &Fill::Random(t.seed)) }
+                Tex { name: t.name.clone(), w, h, fmt, payload: payload_for(fmt, w, h, &Fill::Random(t.seed)), mip_tail: if t.seed % 5 == 0 { crate::engine::prop::Mix64(t.seed ^ 77).bytes(fmt.payload_len(w, h) / 4 + fmt.payload_len(w, h) / 16) } else { Vec::new() } }
             })
             .collect();
+        let mut texs = texs;
+        if case.container != Container::Cgfx {
+            for t in texs.iter_mut() {
+                t.mip_tail.clear();
+            }
+        }
         let b = match case.container {
             Container::Ctpk => build_ctpk(&texs, case.placement, &|s| sjis_encode(s).unwrap_or_default()),
             Container::Bch => build_bch(&texs, case.placement),
@@ -111,7 +117,7 @@ impl Prop for C20 {
     fn rule() -> String {
         "Lists of 0..=6 textures (names from ASCII letters/digits/punctuation, half-width kana and kanji - no format characters; Shift-JIS in CTPK, UTF-8 in BCH/CGFX, none in TPL; sides 8/16/32 for the 3DS containers, any 1..=64 for TPL; any of the 9 supported formats (CI8 + RGB5A3 palette for TPL); random payloads) \
          x container in {CTPK, BCH, CGFX, TPL} x placement (0 = usual layout; otherwise a seeded conforming layout: CTPK names before/after payloads with gaps and arbitrary per-texture offsets; BCH both header shapes (compat byte <= 20 / >= 0x21), the four sections in any order with gaps, pointer table before/after the records; \
-         CGFX TXOBs in any order after the DICT, names and payloads in any order after them, forward self-relative offsets; TPL table, headers, palette and image data in any order). Oracle, full file: Ok, same count and order, names equal where stored, dimensions equal, pixel data equal to the reference decoding of that texture's own payload (and to mila's decoding of the same payload in a single-texture CTPK). \
+         CGFX TXOBs in any order after the DICT, names and payloads in any order after them, forward self-relative offsets, every fifth texture with a mip chain stored after its top level (size field = whole chain); TPL table, headers, palette and image data in any order). Oracle, full file: Ok, same count and order, names equal where stored, dimensions equal, pixel data equal to the reference decoding of that texture's own payload (and to mila's decoding of the same payload in a single-texture CTPK). \
          Wrong magic (BCH, CGFX, TPL; a random 32-bit value, or a single differing byte at each of the four positions) => Err. Strict prefixes (every cut for files <= 4 KiB quick / 64 KiB thorough, otherwise all cuts in the first 1 KiB, payload boundaries +-1 and a stride): no panic in either build, and Err whenever the cut lies before the end of some non-empty payload. \
          Non-trivial: >= 2 textures with different formats, or a non-default placement; for prefixes: the cut falls inside a payload or a table. Distinct = distinct case value."
             .into()
@@ -127,7 +133,7 @@ impl Prop for C20 {
         true
     }
     fn random_cases(tier: Tier) -> u64 {
-        tier.pick(3_000, 1_500_000)
+        tier.pick(15_000, 1_500_000)
     }
     fn strategy(_tier: Tier) -> BoxedStrategy<Case> {
         let tex = (proptest::collection::vec(name_char(), 0..10).prop_map(|v| v.into_iter().collect::<String>()), 0u8..9, any::<u8>(), any::<u8>(), any::<u64>()).prop_map(|(name, fmt, w, h, seed)| TexSpec { name, fmt, w, h, seed });
@@ -319,6 +325,7 @@ impl Prop for C20 {
         });
         cx.label_if(case.placement != 0, "non-default-placement");
         cx.label_if(n == 0, "no-textures");
+        cx.label_if(texs.iter().any(|t| !t.mip_tail.is_empty()), "cgfx-mip-chain");
         cx.label_if(case.texs.iter().any(|t| !t.name.is_ascii()) && case.container != Container::Tpl, "non-ascii-name");
         let _ = Fmt::Rgba8;
     }
